@@ -8,7 +8,7 @@
    by field (recursively the same rule), skipped fields keep the default. *)
 From Coq Require Import List NArith ZArith Bool.
 From Dials Require Import Base.Outcome Base.Runes Reflect.Ty Reflect.Ptrify Stack.Overlay Stack.StackSpec
-  Stack.Spine Stack.StackProofs Stack.StackFacts.
+  Stack.Spine Stack.StackProofs Stack.StackFacts Stack.StackIdem.
 Import ListNotations.
 
 (* For every config struct type inside C01's quantifier (cfg_ok: no
@@ -57,9 +57,32 @@ Theorem stack_layers_compose : forall fs bvs names l1 l2,
   stack_fields fs bvs names (l1 ++ l2) = stack_fields fs (stack_fields fs bvs names l1) names l2.
 Proof. exact (proj2 stack_app). Qed.
 
+(* a layer that occurs twice in a row anywhere in the stack counts once: a source
+   that reports again the value it reported before changes nothing (proved by
+   mutual induction over the type, Stack/StackIdem.v) - for the specification ... *)
+Theorem stack_repeated_layer_once : forall fs d ls1 l ls2,
+  stack fs d (ls1 ++ l :: l :: ls2) = stack fs d (ls1 ++ l :: ls2).
+Proof. exact stack_repeat_l. Qed.
+
+(* ... and, by compose_eq_stack, for the model of dials.compose itself *)
+Theorem compose_repeated_layer_once : forall fs d ls1 l ls2,
+  cfg_ok fs = true -> spine_fields fs d = true -> forallb (layer_ok fs) (ls1 ++ l :: ls2) = true ->
+  compose fs d (ls1 ++ l :: l :: ls2) = compose fs d (ls1 ++ l :: ls2).
+Proof.
+  intros fs d ls1 l ls2 H1 H2 H3.
+  rewrite (compose_eq_stack fs d (ls1 ++ l :: ls2) H1 H2 H3).
+  rewrite (compose_eq_stack fs d (ls1 ++ l :: l :: ls2) H1 H2).
+  - rewrite stack_repeat_l. reflexivity.
+  - rewrite forallb_app in *. cbn [forallb] in *.
+    apply andb_true_iff in H3 as [Ha Hb]. apply andb_true_iff in Hb as [Hl Hb].
+    rewrite Ha, Hl, Hb. reflexivity.
+Qed.
+
 Print Assumptions compose_eq_stack.
 Print Assumptions stack_leaf_last_wins.
 Print Assumptions stack_struct_merges.
 Print Assumptions stack_unset_layer_id.
 Print Assumptions stack_skipped_frame.
 Print Assumptions stack_layers_compose.
+Print Assumptions stack_repeated_layer_once.
+Print Assumptions compose_repeated_layer_once.
